@@ -149,6 +149,11 @@ def check_wsgi(sched, rec, allow_eager_close=False):
     if not isinstance(headers, list) or any(not (isinstance(h, tuple) and len(h) == 2 and isinstance(h[0], str)
                                                  and isinstance(h[1], str)) for h in headers):
         pr.append('headers are not a list of (str, str)')
+    else:
+        want = {'str': ['a=1'], 'list': ['a=1', 'b=2'], 'tuple': ['a=1', 'b=2']}.get(sched.get('headers'))
+        if want is not None and [v for k, v in headers if k == 'Set-Cookie'] != want:
+            pr.append('header values set by user code not sent one line each, in order: %r' %
+                      ([v for k, v in headers if k == 'Set-Cookie'],))
     if any(not isinstance(c, bytes) for c in rec.chunks):
         pr.append('non-bytes body chunk')
     else:
